@@ -136,7 +136,7 @@ impl FilterPolicy for BloomPolicy {
             filter.resize((filter_bits + 7) / 8, 0);
         }
 
-        let adj_filter_bits = (filter.len() * 8) as u32;
+        let adj_filter_bits = filter.len() as u64 * 8;
 
         // Encode k at the end of the filter.
         filter.push(self.k as u8);
@@ -146,7 +146,7 @@ impl FilterPolicy for BloomPolicy {
             let mut h = self.bloom_hash(key);
             let delta = (h >> 17) | (h << 15);
             for _ in 0..self.k {
-                let bitpos = (h % adj_filter_bits) as usize;
+                let bitpos = (h as u64 % adj_filter_bits) as usize;
                 filter[bitpos / 8] |= 1 << (bitpos % 8);
                 h = (h as u64 + delta as u64) as u32;
             }
@@ -161,7 +161,7 @@ impl FilterPolicy for BloomPolicy {
             return true;
         }
 
-        let bits = (filter.len() - 1) as u32 * 8;
+        let bits = (filter.len() - 1) as u64 * 8;
         let k = filter[filter.len() - 1];
         let filter_adj = &filter[0..filter.len() - 1];
 
@@ -172,7 +172,7 @@ impl FilterPolicy for BloomPolicy {
         let mut h = self.bloom_hash(key);
         let delta = (h >> 17) | (h << 15);
         for _ in 0..k {
-            let bitpos = (h % bits) as usize;
+            let bitpos = (h as u64 % bits) as usize;
             if (filter_adj[bitpos / 8] & (1 << (bitpos % 8))) == 0 {
                 return false;
             }
